@@ -167,25 +167,42 @@ Definition with_store (a : archive) (s : store) : archive := mkArch s (a_sum a) 
 
 Definition nonzero (z : Z) : bool := negb (Z.eqb z 0).
 
+(** what the add call was given must be consistent with the pre-call archive: one distance per stored
+    entry, and (with local competition) a valid index_of answer for every non-novel candidate *)
+Definition valid_batch (c : pcfg) (st : pstate) (cs : list pcand) : bool :=
+  forallb (fun x => Nat.eqb (length (pc_dists x)) (psize st)) cs &&
+  (negb (plc c) || forallb (fun x => is_novel c (psize st) x || near_ok (psize st) x) cs).
+
+Definition novel_rows (c : pcfg) (st : pstate) (cs : list pcand) : list pcand :=
+  filter (is_novel c (psize st)) cs.
+
+(** if new_size > capacity: resize(2 ** ceil(log2(new_size / capacity)) * capacity) *)
+Definition grown_store (c : pcfg) (st : pstate) (cs : list pcand) : store :=
+  let new_size := (psize st + length (novel_rows c st cs))%nat in
+  let s0 := pstore st in
+  if Nat.ltb (cap s0) new_size then fst (resize s0 (grow (cap s0) new_size)) else s0.
+
+(** the part of add() after argument validation *)
+Definition padd_ok (c : pcfg) (st : pstate) (cs : list pcand) : pstate * addout :=
+  let n := psize st in
+  let s1 := grown_store c st cs in
+  let r := Archive.add (acfg (cap s1)) (with_store (ps_arch st) s1) (to_cands c n n cs) in
+  let sts := fst (snd r) in
+  let vals := snd (snd r) in
+  let status := if plc c then sts else spread (map (is_novel c n) cs) sts in
+  let changed := existsb nonzero status in
+  (mkPs (fst r) (if changed then None else ps_lo st) (if changed then None else ps_hi st),
+   mkOut status
+         (map (fun x => novelty c n (pc_dists x)) cs)
+         (if plc c then map (lc_of c st) cs else [])
+         (if plc c then vals else [])).
+
 Definition padd (c : pcfg) (st : pstate) (noobj : bool) (cs0 : list pcand) : pstate * result addout :=
   if noobj && plc c then (st, Err ValueError)
   else
-    let n := psize st in
     let cs := if noobj then map zero_obj cs0 else cs0 in
-    if negb (forallb (fun x => Nat.eqb (length (pc_dists x)) n) cs) then (st, Err OtherError)
-    else if plc c && negb (forallb (fun x => is_novel c n x || near_ok n x) cs) then (st, Err OtherError)
-    else
-      let new_size := (n + length (filter (is_novel c n) cs))%nat in
-      let s0 := pstore st in
-      let s1 := if Nat.ltb (cap s0) new_size then fst (resize s0 (grow (cap s0) new_size)) else s0 in
-      let '(a2, (sts, vals)) := Archive.add (acfg (cap s1)) (with_store (ps_arch st) s1) (to_cands c n n cs) in
-      let status := if plc c then sts else spread (map (is_novel c n) cs) sts in
-      let changed := existsb nonzero status in
-      (mkPs a2 (if changed then None else ps_lo st) (if changed then None else ps_hi st),
-       Ok (mkOut status
-                 (map (fun x => novelty c n (pc_dists x)) cs)
-                 (if plc c then map (lc_of c st) cs else [])
-                 (if plc c then vals else []))).
+    if negb (valid_batch c st cs) then (st, Err OtherError)
+    else let r := padd_ok c st cs in (fst r, Ok (snd r)).
 
 (** add_single = validate_single, then add of a batch of one *)
 Definition padd_single (c : pcfg) (st : pstate) (noobj : bool) (x : pcand) : pstate * result addout :=
